@@ -585,8 +585,16 @@ func meaningOf(field string, vals []string) string {
 	if len(vals) == 0 {
 		return ""
 	}
-	v := strings.TrimSpace(vals[0])
+	// several field lines are one list (RFC 9110 §5.3)
+	parts := make([]string, 0, len(vals))
+	for _, v := range vals {
+		parts = append(parts, strings.TrimSpace(v))
+	}
+	v := strings.Join(parts, ", ")
 	if m, ok := spellingMeaning[field+"\x00"+v]; ok {
+		return m
+	}
+	if m, ok := spellingMeaning[field+"\x00"+strings.ReplaceAll(v, ", ", ",")]; ok {
 		return m
 	}
 	return v
